@@ -1,0 +1,29 @@
+// Copyright 2026 The Go Authors. All rights reserved.
+// Use of this source code is governed by a BSD-style
+// license that can be found in the LICENSE file.
+
+//go:build !verif
+
+package impl
+
+import "google.golang.org/protobuf/reflect/protoreflect"
+
+// Verification hooks; no-ops unless built with the "verif" tag.
+
+const (
+	verifLazyEnter = iota
+	verifLazyDecoded
+	verifLazyCAS
+)
+
+const (
+	verifInitEnter = iota
+	verifInitLocked
+	verifInitPublish
+)
+
+func verifLazy(stage int, mi *MessageInfo, p pointer, num protoreflect.FieldNumber, mine, current pointer) {
+}
+func verifSizeCacheHit(mi *MessageInfo, p pointer, opts marshalOptions, cached int) {}
+func verifNoStore() bool                                                            { return false }
+func verifInit(stage int, mi *MessageInfo)                                          {}
